@@ -28,6 +28,7 @@ PROBES = ['fault_inside_pushed_block', 'handler_ran_after_fault',
           'falsy_mapping_pushed', 'tree_header_footer_document',
           'recursive_sub_template_reentered', 'same_object_pushed_twice',
           'client_path_of_two', 'guard_refused_item',
+          'guard_refuses_attribute_names',
           'tree_leaves_expand_document',
           'guard_refused_item_skipped',
           'fault_between_in_push_and_try', 'let_arg_fault', 'persistent_fault']
@@ -81,6 +82,7 @@ class Gen:
         self.nodes = 0
         self.req = {}
         self.guard = False      # C08 only: templates run with a refusing guard
+        self.tree_docs = []     # sub-templates the tree tag calls itself
 
     def site(self, prefix):
         self.ns += 1
@@ -401,6 +403,7 @@ class Gen:
                 self.subs[name] = {'body': b, 'defaults': r.choice(
                     [{}, {'dflt': 'd'}])}
                 opts[opt] = name
+                self.tree_docs.append(name)
         self.script[t] = {'treeroot': self.tree_nodes(t, 0, [0])}
         if self.guard and r.random() < 0.6:
             opts['skip_unauthorized'] = 1
@@ -490,6 +493,16 @@ def gen_case(seed, tier):
         g.guard = True
     top = g.body(0, minn=1)
     subs = {k: v for k, v in g.subs.items() if v}
+    if guard and r.random() < 0.5:
+        # the attribute guard refuses a name or two as well: a look-up that
+        # passes an object on the namespace stack (a loop item, a with
+        # object, a tree node) on its way down then fails with Unauthorized,
+        # wherever the package happens to make it
+        pool = sorted(subs) + ['a', 'fa', 'wv', 'dflt', 'n']
+        names = set(r.sample(pool, r.choice([1, 1, 2])))
+        if g.tree_docs and r.random() < 0.6:
+            names.add(r.choice(sorted(g.tree_docs)))
+        guard.append(sorted(names))
     return {'kind': 'prog', 'body': top, 'subs': subs, 'script': g.script,
             'req': g.req, 'mode': r.choice(['sub', 'sub', 'top']),
             'level0': r.randint(0, 5), 'pair_seed': r.randint(0, 10 ** 9),
@@ -512,11 +525,18 @@ _GCLASSES = {}
 def guarded_class(guard):
     """HTML with security guards: attribute access is allowed, item access
     refuses every integer index that is j modulo m"""
-    key = tuple(guard)
+    key = repr(guard)
     if key not in _GCLASSES:
         from DocumentTemplate import HTML
         from zExceptions import Unauthorized
-        m, j = guard
+        m, j = guard[:2]
+        refused = frozenset(guard[2]) if len(guard) > 2 else frozenset()
+
+        def getattr_(ob, name, *default):
+            if name in refused:
+                GUARD_HITS[0] += 1
+                raise Unauthorized('attribute %s refused' % name)
+            return getattr(ob, name, *default)
 
         def getitem(ob, index):
             if isinstance(index, int) and index % m == j:
@@ -526,11 +546,12 @@ def guarded_class(guard):
 
         class GHTML(HTML):
             def guarded_getattr(self, ob, name, *default):
-                return getattr(ob, name, *default)
+                return getattr_(ob, name, *default)
 
             def guarded_getitem(self, ob, index):
                 return getitem(ob, index)
         GHTML.plain_getitem = staticmethod(getitem)
+        GHTML.plain_getattr = staticmethod(getattr_)
         _GCLASSES[key] = GHTML
     return _GCLASSES[key]
 
@@ -594,7 +615,8 @@ def execute(case, prep, plan):
             md0.guarded_getitem = None
             if case.get('guard'):
                 # what a guarded top-level call would have put there
-                md0.guarded_getattr = getattr
+                md0.guarded_getattr = guarded_class(
+                    case['guard']).plain_getattr
                 md0.guarded_getitem = guarded_class(
                     case['guard']).plain_getitem
             md0.level = case.get('level0', 0)
@@ -761,6 +783,8 @@ def _run_case(case):
         nonlocal evaluations, steps
         GUARD_HITS[0] = 0
         env, outcome, md0, before = execute(case, prep, plan)
+        if case.get('guard') and len(case['guard']) > 2:
+            probe('guard_refuses_attribute_names')
         if GUARD_HITS[0]:
             faults['guard.deny'] = faults.get('guard.deny', 0) + GUARD_HITS[0]
             probe('guard_refused_item')
